@@ -180,6 +180,19 @@ pub fn shadowed_global_occurrence(prog: &Prog, tok: &splgen::render::Tok) -> boo
 /// every identifier, keyword, number and comment is reported, with the kind of its binding
 pub fn check_classification(prog: &Prog, rendered: &Rendered, laid: &Laid, toks: &[Decoded], r: &mut CaseResult) {
     let text = &laid.text;
+    // computed lazily: does the recorded baseline report exactly the same tokens for this document?
+    let baseline_same = std::cell::OnceCell::new();
+    let as_baseline = || {
+        *baseline_same.get_or_init(|| {
+            let u = srv::default_uri();
+            let Ok(v) = crate::pinned_lsp::answer("textDocument/semanticTokens/full", &u, text, json!({ "textDocument": { "uri": u.as_str() } })) else { return false };
+            let Some(data) = v["data"].as_array() else { return false };
+            let nums: Vec<u32> = data.iter().filter_map(|x| x.as_u64().map(|x| x as u32)).collect();
+            let st: Vec<SemanticToken> = nums.chunks_exact(5).map(|c| SemanticToken { delta_line: c[0], delta_start: c[1], length: c[2], token_type: c[3], token_modifiers_bitset: c[4] }).collect();
+            let (types, mods) = legend();
+            decode_tokens(&st, &types, &mods).map_or(false, |b| b.as_slice() == toks)
+        })
+    };
         // every identifier, keyword, number and comment is reported, with the kind of its binding
         let by_offset: std::collections::HashMap<usize, &Decoded> = toks.iter().map(|t| (lsp::offset_of(text, t.pos), t)).collect();
         for (i, tok) in rendered.toks.iter().enumerate() {
@@ -216,7 +229,7 @@ pub fn check_classification(prog: &Prog, rendered: &Rendered, laid: &Laid, toks:
                 );
                 if shadowed {
                     let got_kind = got.map_or("none".to_string(), |g| format!("{}{}", g.kind, if g.declaration { "+declaration" } else { "" }));
-                    r.fail(format!("shadowed-global-occurrence|want:{}{}|got:{}", want_kind, if want_decl { "+declaration" } else { "" }, got_kind), what, json!({ "text": text }));
+                    r.fail(crate::pinned_lsp::triage(format!("shadowed-global-occurrence|want:{}{}|got:{}", want_kind, if want_decl { "+declaration" } else { "" }, got_kind), as_baseline()), what, json!({ "text": text }));
                 } else {
                     r.fail(format!("misclassified|{}{}", want_kind, if want_decl { "+declaration" } else { "" }), what, json!({ "text": text }));
                 }
